@@ -21,6 +21,10 @@ RULE = ('exhaustive: every utility decorator x {def, async def} x signature shap
         'require_kwargs over callables taking *args (and *args + keyword-only, + **kwargs; controls without *args) as plain function, instance method, '
         'static method (decorator below and above @staticmethod), class method (both orders), bound method / bound class method handed to the decorator '
         'call, reached through the instance and through the class, alone and under trace, x call styles with positional surplus arguments x {def, async def}.  '
+        'Re-entrant calls (a call that starts while another call of the SAME decorated callable is open): recursion depth 1-4 through the module-level name '
+        'and re-entrance through a callback argument, branching plans, nested calls that raise / do not bind, histories of three top-level calls, x 10 stacks '
+        'with count_calls x {def, async def}; for coroutine functions also two calls in flight (call, call, await, await); judged against the undecorated recursion '
+        '(specReent): same body invocations and results, every count_calls counter = number of calls made once no call is in flight, announced numbers distinct.  '
         'Staged decoration (callables that already carry attributes): a counted function called k = 0..5 times, then decorated again with count_calls '
         'directly or through each other decorator in between (count_calls(trace(counted)), count_calls(count_calls(f)), re-decoration after calls, a '
         'num_calls attribute and another __dict__ entry set by hand), every wrapper\'s num_calls entry observed after every call, plus seeded staged stacks.  '
@@ -69,6 +73,8 @@ SHAPES = {
     'm_classm': ('cls, a, b', "[('cls', cls), ('a', a), ('b', b)]", '(), {}', dict(pos=[8, 2, 3], kwonly=[], defaults=[], varpos=False, varkw=False)),
     'm_classm_star': ('cls, *args, **kwargs', "[('cls', cls)]", 'args, kwargs', dict(pos=[8], kwonly=[], defaults=[], varpos=True, varkw=True)),
     'm_prop': ('self', "[('self', self)]", '(), {}', dict(pos=[1], kwonly=[], defaults=[], varpos=False, varkw=False)),
+    # re-entrant calls (recursion / callbacks): a parameter that can carry the callback
+    're': ('a, b=None, *, c=None', "[('a', a), ('b', b), ('c', c)]", '(), {}', dict(pos=[2, 3], kwonly=[4], defaults=[3, 4], varpos=False, varkw=False)),
     # callables under require_kwargs: *args + keyword-only (+ **kwargs), and controls without *args; f = no first parameter, m = self, c = cls
     'rk_f': ('*args, c=None', "[('c', c)]", 'args, {}', dict(pos=[], kwonly=[4], defaults=[4], varpos=True, varkw=False)),
     'rk_fk': ('*args, c=None, **kwargs', "[('c', c)]", 'args, kwargs', dict(pos=[], kwonly=[4], defaults=[4], varpos=True, varkw=True)),
@@ -84,11 +90,13 @@ SHAPES = {
     'rk_cab': ('cls, a, b=None', "[('cls', cls), ('a', a), ('b', b)]", '(), {}', dict(pos=[8, 2, 3], kwonly=[], defaults=[3], varpos=False, varkw=False)),
 }
 A, B, C3, D4, E5 = 11, 12, 13, 14, 15
+CB_ID = 16          # the callback object of the re-entrant programs
 STYLES = {
     'P2': ([A, B], []), 'K2': ([], [[2, A], [3, B]]), 'M': ([A], [[3, B]]), 'K2r': ([], [[3, B], [2, A]]),
     'RZ': ([], [[6, A], [3, B]]), 'RC': ([], [[6, A], [2, C3], [3, B]]), 'RY': ([], [[2, A], [7, B]]),
     'P1': ([A], []), 'K1': ([], [[2, A]]), 'E': ([], []), 'P3': ([A, B, C3], []),
     'X': ([A, B, C3], [[4, D4], [5, E5]]), 'Kd': ([], [[2, A], [5, E5]]),
+    'P2cb': ([A, B], [[4, CB_ID]]), 'K2cb': ([], [[2, A], [3, B], [4, CB_ID]]), 'P1cb': ([A], [[4, CB_ID]]), 'Ecb': ([], [[4, CB_ID]]), 'P3cb': ([A, B, C3], [[4, CB_ID]]),
     'P3c': ([A, B, C3], [[4, D4]]), 'P1c': ([A], [[4, D4]]), 'Kc': ([], [[4, D4]]), 'P5': ([A, B, C3, D4, E5], []),
 }
 # require_kwargs forms: which first parameter the shapes have, and the call styles per kind of signature
@@ -438,6 +446,79 @@ def rand_staged(rng, n):
     return out
 
 
+# ---- re-entrant calls: a call that starts while another call of the same decorated callable is open
+
+def mk_reent(layers, flavour, mode, plan, ops, wkinds, warn='ignore'):
+    """plan: [[style…]…] nested calls of invocation i; ops: [('invoke'|'call', style) | ('await', k)]; mode: 'direct' (the body calls the
+    decorated callable by its module-level name) | 'callback' (it calls the callback it was handed as argument `c`)"""
+    x = {'reent': {'mode': mode, 'plan': [list(p) for p in plan], 'ops': [list(o) for o in ops]},
+         'layers': [layer(d) if isinstance(d, str) else d for d in layers], 'flavour': flavour, 'shape': 're', 'wkinds': list(wkinds),
+         'okinds': ['equal'] * (len(wkinds) + 2), 'other_flavour': flavour, 'mode': warn}
+    sig = SHAPES['re'][3]
+    wscript = outcome_script(x['wkinds'])
+    c = {'kind': 'reent', 'body': {'coro': flavour == 'async', 'sig': sig, 'script': wscript},
+         'other': {'coro': flavour == 'async', 'sig': dict(sig), 'script': other_script(x['okinds'], wscript)},
+         'layers': [{'d': l['d'], 'param': [PARAM_ID, PARAM_CLS], 'renames': RENAME_SETS[l['renames']], 'guard': NO_GUARD} for l in x['layers']],
+         'plan': [[{'pos': STYLES[st][0], 'kw': STYLES[st][1]} for st in p] for p in plan],
+         'ops': [[o[0], o[1]] if o[0] == 'await' else [o[0], {'pos': STYLES[o[1]][0], 'kw': STYLES[o[1]][1]}] for o in ops]}
+    return {'m': 'utility', 'c': c, 'x': x}
+
+
+RE_STACKS = [['count_calls'], ['count_calls', 'trace'], ['trace', 'count_calls'], ['count_calls', 'count_calls'], ['count_calls', 'deprecated'],
+             ['timer', 'count_calls'], ['trace_if_returns', 'count_calls'], ['count_calls', 'rename_kwargs'], ['mock', 'count_calls'], ['count_calls', 'unimplemented']]
+
+
+def reent_cases(rng, tier):
+    out = []
+    for mode in ('direct', 'callback'):
+        cb = 'cb' if mode == 'callback' else ''
+        S = lambda st: st + cb
+        for flavour in ('sync', 'async'):
+            for stack in RE_STACKS:
+                # recursion depth 1..4: invocations 0..d-1 call the callable once more each
+                for d in range(1, 5):
+                    for wk in (['ret'] * 8, ['ret', 'exc', 'ret', 'base', 'ret', 'ret', 'ret', 'ret']):
+                        out.append(mk_reent(stack, flavour, mode, [[S('P2')]] * d, [('invoke', S('P2'))], wk))
+                    # … and a history of three top-level calls, the second and third re-entering as far as the plan goes on
+                    out.append(mk_reent(stack, flavour, mode, [[S('P2')], [S('K2')], []] + [[S('P1')]] * (d - 1), [('invoke', S('P2')), ('invoke', S('K2')), ('invoke', S('P1'))],
+                                        [rng.choice(OUTCOMES) for _ in range(10)]))
+                # branching: the first invocation calls twice, each of those once; a nested call that does not bind
+                out.append(mk_reent(stack, flavour, mode, [[S('P2'), S('K2')], [S('P1')], [S('P2')]], [('invoke', S('P2')), ('invoke', S('P2'))], ['ret'] * 12))
+                out.append(mk_reent(stack, flavour, mode, [[S('E'), S('P2'), S('P3')], [S('E')]], [('invoke', S('P2')), ('invoke', S('E'))], ['ret', 'exc', 'ret', 'ret', 'ret']))
+                # two calls in flight: both started before either is awaited (coroutine functions; for plain functions `call` is the whole call)
+                out.append(mk_reent(stack, flavour, mode, [], [('call', S('P2')), ('call', S('K2')), ('await', 1), ('await', 0)], ['ret'] * 4))
+                out.append(mk_reent(stack, flavour, mode, [[S('P2')], [], [S('P1')]], [('call', S('P2')), ('call', S('K2')), ('invoke', S('P1')), ('await', 1), ('await', 0)],
+                                    ['ret', 'exc', 'ret', 'ret', 'base', 'ret', 'ret', 'ret']))
+    return out + rand_reent(rng, 120 if tier == 'quick' else 4000)
+
+
+def rand_reent(rng, n):
+    out = []
+    pool = ['trace', 'timer', 'count_calls', 'count_calls', 'deprecated', 'trace_if_returns']
+    for _ in range(n):
+        mode = rng.choice(['direct', 'callback'])
+        cb = 'cb' if mode == 'callback' else ''
+        sty = lambda: rng.choice(['P2', 'P2', 'K2', 'P1', 'E', 'P3']) + cb if mode == 'callback' else rng.choice(['P2', 'P2', 'K2', 'P1', 'M', 'E', 'P3'])
+        stack = [rng.choice(pool if rng.random() < 0.85 else UTIL[:7] + ['mock', 'unimplemented']) for _ in range(rng.choice([1, 1, 2, 2, 3]))]
+        if 'count_calls' not in stack:
+            stack[rng.randrange(len(stack))] = 'count_calls'
+        plan = [[sty() for _ in range(rng.choice([0, 1, 1, 1, 2]))] for _ in range(rng.randint(0, 6))]
+        ops, open_calls = [], []
+        for _ in range(rng.randint(1, 4)):
+            r = rng.random()
+            if r < 0.6:
+                ops.append(('invoke', sty()))
+            elif r < 0.85:
+                open_calls.append(sum(1 for o in ops if o[0] == 'call')); ops.append(('call', sty()))
+            elif open_calls:
+                ops.append(('await', open_calls.pop(rng.randrange(len(open_calls)))))
+        while open_calls:
+            ops.append(('await', open_calls.pop(rng.randrange(len(open_calls)))))
+        out.append(mk_reent([layer(d, renames=rng.choice(list(RENAME_SETS))) for d in stack], rng.choice(['sync', 'async']), mode, plan, ops,
+                            [rng.choice(OUTCOMES + ['ret', 'ret']) for _ in range(16)], warn=rng.choice(['ignore', 'always'])))
+    return out
+
+
 def valid_layers(names, shape):
     return 'overrides' not in names or shape == 'method'
 
@@ -589,13 +670,13 @@ def ovr_cases(tier):
 
 def cases(rng, tier):
     out = attrs_cases() + singles(tier) + members(tier) + pairs(tier) + counter_histories(rng, tier) + ovr_cases(tier)
-    out += rk_cases(tier) + staged_cases(rng, tier)
+    out += rk_cases(tier) + staged_cases(rng, tier) + reent_cases(rng, tier)
     out += random_cases(rng, 600 if tier == 'quick' else 30000)
     return out
 
 
 def search(rng, tier, near):
-    return random_cases(rng, 2500) + rand_staged(rng, 500)
+    return random_cases(rng, 2200) + rand_staged(rng, 400) + rand_reent(rng, 400)
 
 
 # ------------------------------------------------------------------ generated programs
@@ -637,12 +718,17 @@ class Runtime:
         self.table = {}          # id -> object
         self.sentinel = V(999999, 999999)
         self.param = V(PARAM_ID, PARAM_CLS)
+        self.top = None          # re-entrant programs: the callable under test (decorated or twin)
+        self.plan = []           # … and the nested calls invocation i makes: [[(args, kwargs)…]…]
+        self.announced = []      # call numbers count_calls printed (only read when the message still has that form)
+        self.cb = lambda *a, **k: self.top(*a, **k)
         self.reset_objects()
 
     def reset_objects(self):
         self.table = {999999: self.sentinel, PARAM_ID: self.param}
         for i in (A, B, C3, D4, E5):
             self.table[i] = V(i, i)
+        self.table[CB_ID] = self.cb
 
     def oid(self, v):
         if v is None:
@@ -672,6 +758,27 @@ class Runtime:
             return o
         raise o
 
+    def enter(self, callee, named, xpos, xkw):
+        """re-entrant bodies, first half: journal the invocation, hand out the nested calls it is to make"""
+        i = self.inv[callee]
+        self.inv[callee] += 1
+        self.J.append(['body', callee, i, sorted([KEY[n], self.oid(v)] for n, v in named), [self.oid(v) for v in xpos],
+                       sorted([KEY.get(k, -1), self.oid(v)] for k, v in xkw.items())])
+        return i, (self.plan[i] if i < len(self.plan) else [])
+
+    def leave(self, callee, i):
+        sc = self.script[callee]
+        if i >= len(sc):
+            return self.sentinel
+        o = self.obj(sc[i])
+        if sc[i][0] == 'ret':
+            return o
+        raise o
+
+
+import re as _re
+_ANNOUNCE = _re.compile(r'Count Calls: Call (\d+) of function')
+
 
 class JournalWriter:
     def __init__(self, H):
@@ -680,6 +787,9 @@ class JournalWriter:
     def write(self, s):
         if s:
             self.H.J.append(['print'])
+            m = _ANNOUNCE.search(s)
+            if m:
+                self.H.announced.append(int(m.group(1)))
         return len(s)
 
     def flush(self):
@@ -770,6 +880,27 @@ def staged_source(x):
         # innermost first: the order of application
         src += '    [' + ', '.join('lambda f: ' + deco_line(l)[1:] + '(f)' for l in reversed(st['layers'])) + '],\n'
     return src + ']\n'
+
+
+def reent_source(x):
+    """the function under test and its twin; both re-enter — the callable they are reached through — as the harness' plan says"""
+    r, flavour = x['reent'], x['flavour']
+    params, named, extras, _ = SHAPES['re']
+    a, aw = ('async ', 'await ') if flavour == 'async' else ('', '')
+    src = IMPORTS + fn_source('other', 're', x['other_flavour'], 'o', [])
+
+    def fn(name, decos):
+        again = 'c' if r['mode'] == 'callback' else name        # the callback handed in / the module-level name (the decorated callable)
+        return ('\n'.join(decos + [f'{a}def {name}({params}):',
+                                   '    """doc of target"""',
+                                   f"    _i, _plan = H.enter('w', {named}, {extras})",
+                                   '    for _a, _k in _plan:',
+                                   '        try:',
+                                   f'            {aw}{again}(*_a, **_k)',
+                                   '        except BaseException:',
+                                   '            pass',
+                                   "    return H.leave('w', _i)"]) + '\n')
+    return src + fn('twin', []) + fn('target', [deco_line(l) for l in x['layers']])
 
 
 def ovr_source(o, flavour):
@@ -928,6 +1059,86 @@ def run_rk(H, loop, x, mod, name, exc):
     return res
 
 
+def run_ops(H, loop, top, x, counters_of):
+    """one re-entrant history through `top`; per operation: journal, result, counters"""
+    r = x['reent']
+    H.J = []
+    H.inv = {'w': 0, 'o': 0}
+    H.announced = []
+    H.top = top
+    H.plan = [[([H.table[i] for i in STYLES[st][0]], {KEYNAME[k]: H.table[v] for k, v in STYLES[st][1]}) for st in p] for p in r['plan']]
+    handles, out = [], []
+    for op in r['ops']:
+        mark = len(H.J)
+        with warnings.catch_warnings():
+            warnings.simplefilter(x['mode'])
+            warnings.filterwarnings('ignore', message='coroutine .* was never awaited', category=RuntimeWarning)
+
+            def hook(message, category, filename, lineno, file=None, line=None, H=H):
+                if not (issubclass(category, RuntimeWarning) and 'never awaited' in str(message)):
+                    H.J.append(['warn', category.__name__])
+            warnings.showwarning = hook
+            with contextlib.redirect_stdout(JournalWriter(H)):
+                try:
+                    if op[0] == 'await':
+                        h = handles[op[1]] if op[1] < len(handles) else None
+                        if h is None:
+                            raise TypeError('nothing to await')
+                        handles[op[1]] = None
+                        v = loop.run_until_complete(_drive(h))
+                    else:
+                        pos, kw = STYLES[op[1]]
+                        v = top(*[H.table[i] for i in pos], **{KEYNAME[k]: H.table[w] for k, w in kw})
+                        if op[0] == 'call':
+                            handles.append(v if inspect.isawaitable(v) else None)
+                            if inspect.isawaitable(v):
+                                v = _PENDING
+                        elif inspect.isawaitable(v):
+                            v = loop.run_until_complete(_drive(v))
+                    res = ['coro'] if v is _PENDING else canon_result(H, v)
+                    v = None
+                except BaseException as e:
+                    if op[0] == 'call':
+                        handles.append(None)
+                    res = canon_exc(H, e)
+                    e = None
+        out.append({'evs': H.J[mark:], 'res': res, 'counters': counters_of()})
+    for h in handles:
+        if h is not None:
+            h.close()
+    return out, list(H.announced)
+
+
+_PENDING = object()
+
+
+def run_reent(progs, H, loop, x):
+    H.reset_objects()
+    wscript = outcome_script(x['wkinds'])
+    H.script = {'w': wscript, 'o': other_script(x['okinds'], wscript)}
+    for e in H.script['w'] + H.script['o']:
+        H.obj(e)
+    mod, name, exc = progs.load(reent_source(x))
+    if exc:
+        return {'deco': exc, 'twin': None}
+    res = {'deco': None}
+    res['twin'], _ = run_ops(H, loop, mod.twin, x, lambda: [])
+    f0 = mod.target
+    chain = [f0]
+    while hasattr(chain[-1], '__wrapped__') and len(chain) < 10:
+        chain.append(chain[-1].__wrapped__)
+    wrapping = [l['d'] for l in x['layers'] if l['d'] != 'overrides']
+
+    def counters_of():
+        return [getattr(chain[j], 'num_calls', None) if j < len(chain) else None for j, d in enumerate(wrapping) if d == 'count_calls']
+    res['attrs'] = [getattr(f0, '__name__', None) == 'target', getattr(f0, '__qualname__', None) == 'target',
+                    getattr(f0, '__doc__', None) == 'doc of target', getattr(f0, '__module__', None) == name]
+    res['coro'] = inspect.iscoroutinefunction(f0)
+    res['ops'], res['announced'] = run_ops(H, loop, mod.target, x, counters_of)
+    H.top = None
+    return res
+
+
 def run_staged(progs, H, loop, x):
     """decorate, call, decorate the result again, call, …; after every call the `num_calls` entry of every wrapper built so far"""
     H.reset_objects()
@@ -1002,6 +1213,9 @@ def run_impl(cases):
                 continue
             if 'staged' in x:
                 out.append(run_staged(progs, H, loop, x))
+                continue
+            if 'reent' in x:
+                out.append(run_reent(progs, H, loop, x))
                 continue
             H.reset_objects()
             wscript = outcome_script(x['wkinds'])
@@ -1109,6 +1323,62 @@ def body_events(evs):
 REJECTED = ['exc', 'lib', 'PedanticCallWithArgsException']
 
 
+def judge_reent(case, impl, model):
+    x = case['x']
+    r = x['reent']
+    depth = len(r['plan'])
+    tag = f"reent/{'+'.join(l['d'] for l in x['layers'])}/{x['flavour']}/{r['mode']}/" + ('in-flight' if any(o[0] == 'call' for o in r['ops']) else f'plan{min(depth, 4)}')
+    if 'error' in model:
+        return {'corr': False, 'pfail': None, 'tag': tag, 'why': 'driver: ' + model['error'], 'nontrivial': False}
+    if impl.get('twin') is None or impl.get('deco'):
+        return {'corr': False, 'pfail': f"building the re-entrant program raised {impl.get('deco')}", 'tag': tag, 'why': 'program failed', 'nontrivial': False}
+    m, s, st = model['model'], model['spec'], model['specTwin']
+    why = []
+    ic = [norm_call(c) for c in impl['ops']]
+    mc = [norm_call(c) for c in m['ops']]
+    if ic != mc:
+        k = next((i for i, (a, b) in enumerate(zip(ic, mc)) if a != b), min(len(ic), len(mc)))
+        why.append(f'operation {k} {r["ops"][k] if k < len(r["ops"]) else ""}: impl {ic[k] if k < len(ic) else None} model {mc[k] if k < len(mc) else None}')
+    if all(impl['attrs']) != m['meta']:
+        why.append(f"metadata: impl {impl['attrs']} model {m['meta']}")
+    if impl['coro'] != m['coro']:
+        why.append(f"iscoroutinefunction: impl {impl['coro']} model {m['coro']}")
+    # the twin validates the specification of the undecorated recursion
+    for k, (tc, sc) in enumerate(zip(impl['twin'], st)):
+        tc = norm_call(tc)
+        if tc['res'] != sc['res'] or body_events(tc['evs']) != [norm_ev(e) for e in sc['calls']]:
+            why.append(f'operation {k}: the undecorated twin differs from the specification of the undecorated recursion: {tc} vs {sc}')
+            break
+    pfail = None
+    if s is not None:
+        n_counters = sum(1 for l in x['layers'] if l['d'] == 'count_calls')
+        deferred, n_call = {}, 0
+        for k, (c, sc) in enumerate(zip(ic, s)):
+            want = sc['res']
+            # "a decorated coroutine function is still awaited to the same result": a decorator with a coroutine wrapper may hand out a coroutine
+            # where the undecorated `async def` raises at once (arguments that do not bind) - the outcome is then due at the await
+            if r['ops'][k][0] == 'call':
+                if c['res'] == ['coro'] and want != ['coro']:
+                    deferred[n_call], want = want, ['coro']
+                n_call += 1
+            elif r['ops'][k][0] == 'await' and r['ops'][k][1] in deferred:
+                want = deferred.pop(r['ops'][k][1])
+            if body_events(c['evs']) != [norm_ev(e) for e in sc['calls']]:
+                pfail = f"operation {k} {r['ops'][k]}: body invocations {body_events(c['evs'])} instead of {sc['calls']}"
+            elif c['res'] != want:
+                pfail = f"operation {k} {r['ops'][k]}: caller saw {c['res']} instead of {want}"
+            elif sc['settled'] and c['counters'] != [sc['n']] * n_counters:
+                pfail = (f"operation {k} {r['ops'][k]}: num_calls of the count_calls layers is {c['counters']} after {sc['n']} calls of the counted function "
+                         f"(count_calls counts every call once, also a call that starts while another one is still open)")
+            if pfail:
+                break
+        if pfail is None and n_counters == 1 and impl.get('announced') and len(impl['announced']) == s[-1]['n'] if s else False:
+            if len(set(impl['announced'])) != len(impl['announced']):
+                pfail = f"the announced call numbers {impl['announced']} are not distinct ({s[-1]['n']} calls)"
+    corr = not why
+    return {'corr': corr, 'pfail': pfail, 'finding': None, 'tag': tag, 'nontrivial': True, 'why': '; '.join(why)}
+
+
 def judge_staged(case, impl, model):
     x = case['x']
     tag = 'staged/' + '|'.join('+'.join(l['d'] for l in st['layers']) for st in x['staged'])
@@ -1214,6 +1484,8 @@ def judge(case, impl, model):
 
     if 'staged' in x:
         return judge_staged(case, impl, model)
+    if 'reent' in x:
+        return judge_reent(case, impl, model)
     names = [l['d'] for l in x['layers']] or [x['member']['cdeco'] + ':' + x['member']['kind'] + ':' + x['member']['access']]
     tag = '+'.join(names) if len(names) < 3 else f'depth{len(names)}'
     if 'rk' in x:
@@ -1291,6 +1563,9 @@ def extra_coverage(results):
         x = c['x']
         if 'ovr' in x:
             progs.add(json.dumps(x, sort_keys=True))
+        elif 'reent' in x:
+            progs.add(json.dumps([x['layers'], x['flavour'], x['reent']['mode']], sort_keys=True))
+            calls += len(x['reent']['ops']) + sum(len(p) for p in x['reent']['plan'])
         elif 'staged' in x:
             progs.add(json.dumps([x['staged'], x['flavour'], x['preset']], sort_keys=True))
             calls += sum(len(st['styles']) for st in x['staged'])
